@@ -373,7 +373,8 @@ class Fn:
     def ex(self, e, env):
         k = e[0]
         if k == "str" and self.spec.get("str_literals"):
-            return "[%s]" % "; ".join(str(b) for b in e[1].strip('"').encode())
+            body0 = e[1][1:-1] if (len(e[1]) >= 2 and e[1][0] == '"' and e[1][-1] == '"') else e[1]
+            return "[%s]" % "; ".join(str(b) for b in rust_unescape(body0).encode())
         if k == "num":
             return str(e[1])
         if k == "bchar":
@@ -2100,6 +2101,24 @@ def functions():
         return "Definition g_staging_name (dst : list Z) (pid nanos seq : Z) : list Z :=\n  %s." % text
     out.append(("staging_name", "src/bin/copia/serve.rs create_staging: the staging name", None, t_staging_name))
 
+    PAIR_CANON = "{ let canon = |p: &Path| std::fs::canonicalize(p).unwrap_or_else(|_| p.to_path_buf()); }"
+
+    def t_root_pair_hash():
+        src = read("src/bin/copia/archive.rs")
+        params, ret, body = R.find_fn(src, "root_pair_hash", None)
+        norm = lambda x: json.loads(json.dumps(x))
+        want = R.Parser(R.tokenize(PAIR_CANON)).block()[1][0]
+        stmts = list(body[1])
+        if [n for n, _ in params] != ["a", "b"] or not stmts or norm(stmts[0]) != norm(want):
+            raise Unsupported("root_pair_hash: the roots are no longer made canonical by `let canon = |p: &Path| std::fs::canonicalize(p).unwrap_or_else(|_| p.to_path_buf());`")
+        spec = dict(str_literals=True, calls={"blake3::Hasher::new": ("(@nil Z)", "Hasher"), "canon": ("canon {0}", "PathBuf"), ".as_os_str": ("{0}", "Vec<u8>"),
+                                              ".as_encoded_bytes": ("{0}", "Vec<u8>"), ".finalize": ("Hh {0}", "Hash"), ".to_hex": ("hex_of {0}", "String")},
+                    updates={"h.update": "{0} ++ {1}"})
+        fn = Fn(spec)
+        text = fn.block(("block", stmts[1:], body[2]), {"a": "Path", "b": "Path"}, Ctx(val=(lambda x: x), ret=(lambda x: x), fall=None))
+        return "Definition g_root_pair_hash (a b : list Z) : list Z :=\n  %s." % text
+    out.append(("root_pair_hash", "src/bin/copia/archive.rs root_pair_hash", None, t_root_pair_hash))
+
     def t_dvalidate():
         src = read("src/delta.rs")
         spec = dict(fields={("Delta", "ops"): ("(d_ops _ {0})", "Vec<DeltaOp>"), ("Delta", "basis_size"): ("(d_basis_size _ {0})", "u64")},
@@ -2948,6 +2967,7 @@ GROUPS = {
     "PushDelete": ("Model.Glob Model.Plan Model.Listing Model.ShellQuote", "plainz", ["push_delete_request"]),
     "PushCommand": ("Model.Glob Model.Plan Model.Listing Model.ShellQuote", "pushcommand", ["push_command", "pull_command", "list_command", "mkdir_list"]),
     "RemoteRun": ("Model.Glob Model.Plan Model.OneWay", "remoterun", ["run_remote"]),
+    "PairKey": ("", "pairkey", ["root_pair_hash"]),
     "Archive": ("Model.Archive", "archive", ["archive_load"]),
     "Plan": ("Model.Glob Model.Plan", False, ["needs_transfer", "glob_match", "is_excluded", "build_plan"]),
     "Protocol": ("Model.Checksum Model.Delta Model.Protocol", False, ["from_u8", "hvalidate"]),
@@ -3154,6 +3174,10 @@ def main():
             body += ("\nSection WithDigest.\nVariable D : Type.\nVariable Hh : list Z -> D.\n"
                      "(* symlink_metadata(full): None = error; Some b = b says whether the entry is a symbolic link *)\n"
                      "Definition is_symlink (b : bool) : bool := b.\n\n" + "\n".join(texts) + "End WithDigest.\n")
+        elif digest == "pairkey":
+            body = (HEADER % (group, "")).replace(" .\n", ".\n") + ("\nSection WithHash.\nVariable D : Type.\nVariable Hh : list Z -> D.            (* BLAKE3 *)\n"
+                     "Variable hex_of : D -> list Z.           (* its 64 hexadecimal digits *)\n"
+                     "Variable canon : list Z -> list Z.        (* std::fs::canonicalize(p), or p itself when that fails *)\n\n" + "\n".join(texts) + "End WithHash.\n")
         elif digest == "plainz":
             body += "\n" + "\n".join(texts)
         elif digest == "archivesys":
